@@ -516,6 +516,8 @@ struct Args {
     codec_only: bool,
     /// other build configurations to run the same check under: (binary, variant name, histories)
     also: Vec<(String, String, u64)>,
+    /// workspace directory in which to run the interpreter probe (`cargo +nightly miri run ... -- ubprobe`)
+    miri_workspace: Option<String>,
 }
 
 fn parse_args() -> Args {
@@ -539,6 +541,7 @@ fn parse_args() -> Args {
         variant: "main".into(),
         codec_only: false,
         also: Vec::new(),
+        miri_workspace: None,
     };
     let mut it = std::env::args().skip(1);
     a.cmd = it.next().unwrap_or_default();
@@ -569,6 +572,7 @@ fn parse_args() -> Args {
             "--out" => a.out = Some(val()),
             "--seam-audit" => a.seam_audit = Some(val()),
             "--variant" => a.variant = val(),
+            "--miri-probe" => a.miri_workspace = Some(val()),
             "--codec-only" => a.codec_only = true,
             "--also" => {
                 let v = val();
@@ -689,15 +693,26 @@ fn cmd_ubprobe(world: &World, args: &Args) -> i32 {
             }
         };
         let n = w.medium.len();
+        // fault plan: fault-free; every truncation inside the first record and around every record
+        // boundary; one I/O error; three bit flips; trailing bytes
+        let mut cuts: Vec<usize> = (0..w.spans[0].1).collect();
+        for (s0, e0) in &w.spans {
+            cuts.extend([*s0, s0 + 1, e0 - 1].iter().copied().filter(|c| *c < n));
+        }
+        cuts.sort();
+        cuts.dedup();
         let mut plan = vec![Fault::None];
-        plan.extend((0..n).map(Fault::TruncateAt));
-        plan.extend([0usize, n / 2, n.saturating_sub(1)].iter().map(|c| Fault::IoErrorAt(*c)));
+        plan.extend(cuts.into_iter().map(Fault::TruncateAt));
+        plan.push(Fault::IoErrorAt(n / 2));
         plan.extend([7usize, 8 * (n / 2) + 3, 8 * n - 1].iter().map(|b| Fault::BitFlip(*b)));
         plan.push(Fault::Trailing(vec![0xAB, 0xCD]));
+        // the history is persisted once; the fault about to run is announced on stdout (formatting a
+        // JSON document per execution costs an interpreter seconds)
+        let doc = json!({"property": PROPERTY, "check": "UB", "fault": {"kind": "none"}, "trace": t.to_json(&name),
+            "info": {"variant": args.variant, "source": "ubprobe", "note": "written before execution; if the interpreter aborted, the last `ubprobe-next` line on stdout names the fault it was executing on this history"}});
+        let _ = std::fs::write(&cur, serde_json::to_string(&doc).unwrap());
         for f in &plan {
-            let doc = json!({"property": PROPERTY, "check": "UB", "fault": f.to_json(), "trace": t.to_json(&name),
-                "info": {"variant": args.variant, "source": "ubprobe", "note": "written before execution; if the interpreter aborted, this is the pair it was executing"}});
-            let _ = std::fs::write(&cur, serde_json::to_string(&doc).unwrap());
+            println!("ubprobe-next history={} fault={}", t.run, serde_json::to_string(&f.to_json()).unwrap());
             let p = read_pass(&world.table, t, &w, f, false);
             execs += 1;
             fired += p.stats.fired as u64;
@@ -903,6 +918,61 @@ fn cmd_run(world: &World, args: &Args) -> i32 {
     }
     let variants_json = Value::Array(variants_json);
 
+    // interpreter probe: the PRNG-free `ubprobe` batch executed by Miri, which detects undefined
+    // behaviour in the `unsafe` decode paths (derive-generated decode_into, codec's array/Box/Vec code)
+    let mut ub_probe = json!({"ran": false, "why": "only requested by the thorough tier"});
+    if let Some(ws) = &args.miri_workspace {
+        let t1 = Instant::now();
+        let out = std::process::Command::new("cargo")
+            .current_dir(ws)
+            .env("MIRIFLAGS", "-Zmiri-disable-isolation")
+            .args(["+nightly", "miri", "run", "--offline", "-p", "c10sim", "--target-dir", "target-miri", "--", "ubprobe", "--replay-dir", &args.replay_dir, "--variant", "miri", "--known", &args.known])
+            .output();
+        match out {
+            Err(e) => ub_probe = json!({"ran": false, "why": format!("cargo +nightly miri could not be started: {}", e)}),
+            Ok(o) => {
+                let so = String::from_utf8_lossy(&o.stdout).to_string();
+                let se = String::from_utf8_lossy(&o.stderr).to_string();
+                let okline = so.lines().find(|l| l.starts_with("UBPROBE-OK")).map(|l| l.to_string());
+                let last_next = so.lines().filter(|l| l.starts_with("ubprobe-next")).last().map(|l| l.to_string());
+                if let (true, Some(l)) = (o.status.success(), &okline) {
+                    println!("c10sim: interpreter probe under Miri: {}", l);
+                    ub_probe = json!({"ran": true, "interpreter": "miri (cargo +nightly miri run, -Zmiri-disable-isolation)", "result": l, "undefined_behaviour_reports": 0, "wall_s": t1.elapsed().as_secs_f64()});
+                } else if let Some(l) = so.lines().find(|l| l.starts_with("VIOLATION")) {
+                    for x in so.lines().filter(|l| l.starts_with("violation in")) {
+                        println!("[variant miri] {}", x);
+                    }
+                    println!("{}", l);
+                    violations += 1;
+                    exit = 1;
+                    ub_probe = json!({"ran": true, "result": "functional violation inside the probe", "line": l});
+                } else if se.contains("Undefined Behavior") {
+                    // build the replay file from the persisted history and the last announced fault
+                    let cur = format!("{}/ubprobe-current.json", args.replay_dir);
+                    let mut doc: Value = std::fs::read_to_string(&cur).ok().and_then(|t| serde_json::from_str(&t).ok()).unwrap_or(json!({}));
+                    if let Some(f) = last_next.as_ref().and_then(|l| l.split("fault=").nth(1)).and_then(|f| serde_json::from_str::<Value>(f).ok()) {
+                        doc["fault"] = f;
+                    }
+                    let report: String = se.lines().skip_while(|l| !l.contains("Undefined Behavior")).take(12).collect::<Vec<_>>().join(" | ");
+                    doc["check"] = json!("U1");
+                    doc["violation"] = json!({"check": "U1", "detail": report});
+                    let path = format!("{}/{}-ubprobe-U1-miri.json", args.replay_dir, args.seed);
+                    let _ = std::fs::write(&path, serde_json::to_string_pretty(&doc).unwrap());
+                    println!("[variant miri] violation: check U1 (undefined behaviour while executing {}) :: {}", last_next.unwrap_or_default(), report);
+                    println!("VIOLATION property={} replay={}", PROPERTY, path);
+                    violations += 1;
+                    exit = 1;
+                    ub_probe = json!({"ran": true, "result": "undefined behaviour reported", "report": report, "replay": path});
+                } else {
+                    // miri missing / unsupported operation / build failure: not a verdict about the property
+                    let why: String = se.lines().rev().take(6).collect::<Vec<_>>().join(" | ");
+                    eprintln!("note: interpreter probe skipped (exit {:?}): {}", o.status.code(), why);
+                    ub_probe = json!({"ran": false, "why": format!("cargo miri exited with {:?}: {}", o.status.code(), why)});
+                }
+            }
+        }
+    }
+
     // evidence
     let distinct_histories = st.distinct.len() as u64;
     let distinct_nontrivial: u64 = st.distinct.values().map(|v| *v as u64).sum();
@@ -977,6 +1047,7 @@ fn cmd_run(world: &World, args: &Args) -> i32 {
             },
             "determinism": {"run_digests_compared": det_compared, "mismatches": det_mismatch, "worker_counts": [1, args.workers.max(2)], "fresh_process": fresh_process},
             "build_configurations": variants_json,
+            "interpreter_probe": ub_probe,
             "components": {
                 "real_code": ["substrate-fixed derived Encode/Decode/MaxEncodedLen/TypeInfo for FixedI8..FixedU128 (incl. derive-generated decode_into)", "substrate-fixed from_bits/to_bits/{from,to}_{le,be,ne}_bytes (inherent and Fixed-trait)", "substrate-fixed Wrapping::{from_bits,to_bits}", "substrate-fixed serde Serialize/Deserialize impls (Fixed*, Wrapping)", "parity-scale-codec 3.7.5 integer/array/Vec/Option/tuple/Box codecs, Compact<u32> length prefix, EncodeAppend, DecodeLength, DecodeAll, DecodeLimit, Joiner, KeyedVec, IoReader", "std::io::Read::read_exact", "scale-info registry", "serde_json, serde_cbor"],
                 "stubs_owned_by_the_simulator": ["SimOutput (codec::Output)", "SimInput (codec::Input)", "SimRead (std::io::Read under IoReader)", "TokSer / TokDe (serde Serializer / Deserializer, SeqAccess, MapAccess)", "the medium (a byte vector)", "reference model: bits >> 8i little-endian bytes + shape framing", "metadata-driven foreign decoder", "hand-written LE reader"],
@@ -1000,6 +1071,7 @@ fn cmd_run(world: &World, args: &Args) -> i32 {
                 "S2": "g: deserialises from sequence and map presentations, own-width and widened integers",
                 "S3": "g + d: a serde stream cut short or failing gives Err",
                 "S4": "g: serde_json / serde_cbor identical to a derived { bits } struct, incl. every strict prefix of the text/bytes",
+                "U1": "c, d (thorough tier): no undefined behaviour reported by Miri on the unsafe decode paths of the PRNG-free probe batch",
             },
             "known_findings_seen": st.known_hits,
             "seam_audit": args.seam_audit.as_ref().and_then(|p| std::fs::read_to_string(p).ok()).and_then(|t| serde_json::from_str::<Value>(&t).ok()).unwrap_or(Value::Null),
